@@ -698,9 +698,279 @@ def _operands(e):
     return names, texts
 
 
+STABLE_ATTRS = set()      # attribute / property names that are bound once (set by the loader)
+INT_NAMES = set()         # loop counters over range(..) of the function being normalised
+
+
+def compute_stable_attrs(trees):
+    """attribute names that are only ever stored inside __init__ (their binding
+    never changes afterwards) and properties that merely return such fields:
+    reading them commutes with any call"""
+    stored_elsewhere, all_attrs = set(), set()
+    getters = {}
+    for t in trees:
+        for fn in ast.walk(t):
+            if not isinstance(fn, ast.FunctionDef):
+                continue
+            is_prop = any(isinstance(d, ast.Name) and d.id == "property" for d in fn.decorator_list)
+            if is_prop:
+                getters.setdefault(fn.name, []).append(fn)
+            for n in ast.walk(fn):
+                tg = []
+                if isinstance(n, ast.Assign):
+                    tg = n.targets
+                elif isinstance(n, (ast.AugAssign, ast.AnnAssign)):
+                    tg = [n.target]
+                elif isinstance(n, ast.Delete):
+                    tg = n.targets
+                for t_ in tg:
+                    for x in ast.walk(t_):
+                        if isinstance(x, ast.Attribute) and isinstance(x.ctx, (ast.Store, ast.Del)):
+                            all_attrs.add(x.attr)
+                            if fn.name != "__init__" or isinstance(n, ast.AugAssign):
+                                stored_elsewhere.add(x.attr)
+                if isinstance(n, ast.Call) and isinstance(n.func, ast.Name) and n.func.id == "setattr":
+                    stored_elsewhere.add("*")
+    stable = {a for a in all_attrs if a not in stored_elsewhere}
+    for _ in range(4):
+        grew = False
+        for name, fs in getters.items():
+            if name in stable or name in stored_elsewhere:
+                continue
+            okk = True
+            for fn in fs:
+                body = _body_wo_doc(fn)
+                if not (len(body) == 1 and isinstance(body[0], ast.Return) and body[0].value is not None):
+                    okk = False
+                    break
+                v = body[0].value
+                if _has(v, ast.Call):
+                    okk = False
+                    break
+                for x in ast.walk(v):
+                    if isinstance(x, ast.Attribute) and x.attr not in stable and x.attr not in ("shape", "size", "ndim", "T"):
+                        okk = False
+            if okk:
+                stable.add(name)
+                grew = True
+        if not grew:
+            break
+    STABLE_ATTRS.clear()
+    if "*" not in stored_elsewhere:
+        STABLE_ATTRS.update(stable)
+    return STABLE_ATTRS
+
+
+MUTATED_PARAMS = {}     # function name -> set of parameter indices (self excluded) / names it may mutate
+
+
+def compute_param_mutation(trees):
+    """name-level mod analysis: which parameters can a function of the package
+    change in place (subscript / attribute store, mutator method, or handing
+    the parameter on to a parameter that is changed)?"""
+    defs = {}
+    for t in trees:
+        for node in ast.walk(t):
+            if isinstance(node, ast.ClassDef):
+                for it in node.body:
+                    if isinstance(it, ast.FunctionDef):
+                        defs.setdefault(it.name, []).append((it, True))
+                        if it.name == "__init__":
+                            defs.setdefault(node.name, []).append((it, True))     # constructor call
+            elif isinstance(node, ast.FunctionDef):
+                pass
+        for node in t.body:
+            if isinstance(node, ast.FunctionDef):
+                defs.setdefault(node.name, []).append((node, False))
+    mut = {name: set() for name in defs}
+    per_def = {}      # id(fn) -> set of mutated parameter indices / names
+
+    def compatible(cname, call):
+        """definitions called `cname` that accept this many arguments"""
+        n = len(call.args) + len(call.keywords)
+        out = []
+        for fn, is_m in defs.get(cname, []):
+            ps = params_of(fn, is_m)
+            req = len(ps) - len(fn.args.defaults)
+            if req <= n <= len(ps) or fn.args.vararg or fn.args.kwarg:
+                out.append((fn, is_m))
+        return out or defs.get(cname, [])
+
+    def params_of(fn, is_method):
+        ps = [a.arg for a in fn.args.args]
+        return ps[1:] if is_method and ps else ps
+    for _ in range(6):
+        grew = False
+        for name, fs in defs.items():
+            for fn, is_m in fs:
+                ps = params_of(fn, is_m)
+                for n in ast.walk(fn):
+                    hit = set()
+                    tg = []
+                    if isinstance(n, ast.Assign):
+                        tg = n.targets
+                    elif isinstance(n, (ast.AugAssign, ast.AnnAssign)):
+                        tg = [n.target]
+                    elif isinstance(n, ast.Delete):
+                        tg = n.targets
+                    for t_ in tg:
+                        for x in ast.walk(t_):
+                            if isinstance(x, (ast.Subscript, ast.Attribute)) and isinstance(x.ctx, (ast.Store, ast.Del)):
+                                r = x
+                                while isinstance(r, (ast.Subscript, ast.Attribute)):
+                                    r = r.value
+                                if isinstance(r, ast.Name) and r.id in ps:
+                                    hit.add(r.id)
+                    if isinstance(n, ast.Call):
+                        if isinstance(n.func, ast.Attribute) and n.func.attr in MUTATORS:
+                            r = n.func.value
+                            while isinstance(r, (ast.Subscript, ast.Attribute)):
+                                r = r.value
+                            if isinstance(r, ast.Name) and r.id in ps:
+                                hit.add(r.id)
+                        cname = n.func.id if isinstance(n.func, ast.Name) else (n.func.attr if isinstance(n.func, ast.Attribute) else None)
+                        if cname in defs:
+                            tgt_m = set()
+                            for fn2, _m2 in compatible(cname, n):
+                                tgt_m |= per_def.get(id(fn2), set())
+                            for k, a in enumerate(n.args):
+                                if isinstance(a, ast.Name) and a.id in ps:
+                                    same = [fn2 for fn2, m2 in compatible(cname, n) if k < len(params_of(fn2, m2)) and params_of(fn2, m2)[k] == a.id]
+                                    ms = tgt_m
+                                    if same:
+                                        ms = set()
+                                        for fn2 in same:
+                                            ms |= per_def.get(id(fn2), set())
+                                    if k in ms:
+                                        hit.add(a.id)
+                            for kw in n.keywords:
+                                if isinstance(kw.value, ast.Name) and kw.value.id in ps and kw.arg in tgt_m:
+                                    hit.add(kw.value.id)
+                        elif cname is not None and cname not in PURE_FUNCS and not (isinstance(n.func, ast.Attribute) and isinstance(n.func.value, ast.Name) and n.func.value.id in ("np", "numpy")):
+                            # unknown callee (library / user code): it may change what it is given
+                            for a in list(n.args) + [kw.value for kw in n.keywords]:
+                                if isinstance(a, ast.Name) and a.id in ps and cname not in ("isinstance", "len", "print", "dict", "list", "tuple", "float", "int", "bool", "str", "hasattr", "getattr", "callable", "signature"):
+                                    hit.add(a.id)
+                    for h in hit:
+                        k = ps.index(h)
+                        pd = per_def.setdefault(id(fn), set())
+                        if k not in pd:
+                            pd.add(k)
+                            pd.add(h)
+                            mut[name].add(k)
+                            mut[name].add(h)
+                            grew = True
+        if not grew:
+            break
+    MUTATED_PARAMS.clear()
+    MUTATED_PARAMS.update(mut)
+    _MUT_DEFS.clear()
+    _MUT_DEFS.update({"defs": defs, "per_def": per_def, "compatible": compatible})
+    return mut
+
+
+_MUT_DEFS = {}
+
+
+def _mutated_for_call(c):
+    """parameter indices / names that the callee(s) of call c may change; None = unknown callee"""
+    cname = c.func.id if isinstance(c.func, ast.Name) else (c.func.attr if isinstance(c.func, ast.Attribute) else None)
+    if not _MUT_DEFS or cname not in _MUT_DEFS["defs"]:
+        return None
+    out = set()
+    for fn, _m in _MUT_DEFS["compatible"](cname, c):
+        out |= _MUT_DEFS["per_def"].get(id(fn), set())
+    return out
+
+
+def _call_may_mutate(c, root):
+    """may the call c change the object bound to the local name `root`?"""
+    if isinstance(c.func, ast.Attribute):
+        r = c.func.value
+        while isinstance(r, (ast.Subscript, ast.Attribute)):
+            r = r.value
+        if isinstance(r, ast.Name) and r.id == root:
+            return True           # a method of the object itself
+    mset = _mutated_for_call(c)
+    for k, a in enumerate(c.args):
+        if root in _names(a):
+            ms = mset
+            if isinstance(a, ast.Name) and _MUT_DEFS:
+                # several functions share the callee's name: prefer those whose
+                # parameter at this position is called like the argument
+                cname = c.func.id if isinstance(c.func, ast.Name) else (c.func.attr if isinstance(c.func, ast.Attribute) else None)
+                same = []
+                for fn, is_m in (_MUT_DEFS["compatible"](cname, c) if cname in _MUT_DEFS["defs"] else []):
+                    ps = [x.arg for x in fn.args.args][1 if is_m else 0:]
+                    if k < len(ps) and ps[k] == a.id:
+                        same.append(fn)
+                if same:
+                    ms = set()
+                    for fn in same:
+                        ms |= _MUT_DEFS["per_def"].get(id(fn), set())
+            if not (isinstance(a, ast.Name) and ms is not None and k not in ms):
+                return True
+    for kw in c.keywords:
+        if root in _names(kw.value):
+            if not (isinstance(kw.value, ast.Name) and mset is not None and kw.arg not in mset):
+                return True
+    return False
+
+
+def _state_reads(e):
+    """(unstable attribute/subscript reads present?, root names of all reads of mutable state)"""
+    unstable = False
+    roots = set()
+    for n in ast.walk(e):
+        if isinstance(n, (ast.Attribute, ast.Subscript)):
+            r = n
+            while isinstance(r, (ast.Attribute, ast.Subscript)):
+                r = r.value
+            if isinstance(r, ast.Name) and r.id not in ("np", "numpy"):
+                roots.add(r.id)
+                if isinstance(n, ast.Subscript):
+                    unstable = True
+                elif n.attr not in STABLE_ATTRS and not (isinstance(n.value, ast.Name) and n.value.id[:1].isupper()):
+                    unstable = True      # (Enum.MEMBER style class attributes are constants)
+    return unstable, roots
+
+
+def _impure_calls(s):
+    out = []
+    for n in ast.walk(s):
+        if isinstance(n, ast.Call) and not _pure(n, allow_alloc=True):
+            out.append(n)
+    return out
+
+
 def _conflict(e, stmts):
-    """do the statements store to an operand of e?"""
+    """can the statements change the value of e?  (stores to an operand, or a
+    call with side effects that may change state that e reads)"""
     names, texts = _operands(e)
+    unstable, roots = _state_reads(e)
+    # a reference chain (x, self.a.b with bindings that never change) is an
+    # alias: reading it commutes with everything; any other expression that
+    # reads object state is a computed value
+    def ref_chain(x):
+        if isinstance(x, ast.Name):
+            return True
+        if isinstance(x, ast.Attribute):
+            return (x.attr in STABLE_ATTRS or (isinstance(x.value, ast.Name) and x.value.id[:1].isupper())) and ref_chain(x.value)
+        if isinstance(x, ast.Subscript) and ref_chain(x.value):
+            # basic slicing of an array (integers and slices only, at least one
+            # slice) is a *view*: it follows the array like an alias
+            idx = x.slice.elts if isinstance(x.slice, ast.Tuple) else [x.slice]
+            if any(isinstance(i_, ast.Slice) for i_ in idx) and all(
+                    isinstance(i_, ast.Slice) and all(b is None or isinstance(b, ast.Constant) for b in (i_.lower, i_.upper, i_.step))
+                    or (isinstance(i_, ast.Constant) and isinstance(i_.value, int))
+                    or (isinstance(i_, ast.Name) and i_.id in INT_NAMES) for i_ in idx):
+                return True
+        return False
+    alias_only = ref_chain(e)
+    if not alias_only and roots:
+        unstable = True
+    if alias_only:
+        unstable = False
     for s in stmts:
         sn, st = _stores_of(s)
         if sn & names:
@@ -709,6 +979,30 @@ def _conflict(e, stmts):
         for t in st:
             for u in texts:
                 if u == t or u.startswith(t + ".") or t.startswith(u + ".") or t.startswith(u + "["):
+                    return True
+        calls = _impure_calls(s)
+        if calls and unstable:
+            # a call with side effects may change the state that e reads: always
+            # assumed for the state of `self`; for an object held in a local name
+            # only a call that is handed the object and may change that parameter
+            if any(r in ("self", "cls") for r in roots):
+                return True
+            if any(_call_may_mutate(c, r) for c in calls for r in roots):
+                return True
+        if calls and not alias_only:
+            # an operand handed to a call with side effects may be modified in place
+            ops = names - {"np", "numpy"}
+            for c in calls:
+                involved = set()
+                if isinstance(c.func, ast.Attribute) and c.func.attr in ("append", "extend", "insert", "add") or (isinstance(c.func, ast.Name) and c.func.id in ("print",)):
+                    # container methods change the receiver only, never their arguments
+                    cand = [c.func.value] if isinstance(c.func, ast.Attribute) else []
+                else:
+                    cand = list(c.args) + [k.value for k in c.keywords] + ([c.func.value] if isinstance(c.func, ast.Attribute) else [])
+                for a in cand:
+                    involved |= _names(a)
+                plain = {n_ for n_ in ops if n_ in involved and n_ not in roots}
+                if plain:
                     return True
     return False
 
@@ -1031,17 +1325,16 @@ def _forward_subst(fnode, unknown, cnt):
                     ok = False
                     continue
                 E = D.value
+                plan_ok = True        # local to this definition; `ok` is about attributing loads to definitions
                 single_use_only = False
                 if not _pure(E, allow_alloc=False):
                     # a freshly allocated value may be substituted into its only use
                     if _pure(E, allow_alloc=True):
                         single_use_only = True
                     else:
-                        ok = False
-                        continue
+                        plan_ok = False
                 if u in _names(E):
-                    ok = False
-                    continue
+                    plan_ok = False
                 uses = []
                 for j in range(i + 1, len(block)):
                     S = block[j]
@@ -1054,17 +1347,14 @@ def _forward_subst(fnode, unknown, cnt):
                         ls = []
                     if ls:
                         between = block[i + 1:j]
-                        if _conflict(E, between):
-                            ok = False
-                        if compound:
-                            if _conflict(E, [S]):
-                                ok = False
+                        if plan_ok and _conflict(E, between):
+                            plan_ok = False
+                        header_only = isinstance(S, ast.For) and all(any(x is y for y in ast.walk(S.iter)) for x in ls)
+                        if compound and not header_only:
+                            if plan_ok and _conflict(E, [S]):
+                                plan_ok = False
                             if isinstance(S, (ast.For, ast.While)) and redefined:
                                 ok = False
-                        else:
-                            # the statement's own targets are written after its value is read,
-                            # but an augmented target is read as well
-                            pass
                         uses.extend(ls)
                     if redefined:
                         if isinstance(S, (ast.If, ast.For, ast.While, ast.Try, ast.With)):
@@ -1076,8 +1366,8 @@ def _forward_subst(fnode, unknown, cnt):
                                     break      # unconditionally redefined: later loads read that definition
                         break
                 if single_use_only and len(uses) != 1:
-                    ok = False
-                plans.append((block, D, E, uses))
+                    plan_ok = False
+                plans.append((block, D, E, uses, plan_ok))
                 covered |= {id(x) for x in uses}
         # stores in compound statements that we did not see as definitions
         if not ok or not plans:
@@ -1087,7 +1377,9 @@ def _forward_subst(fnode, unknown, cnt):
         total_defs = sum(1 for n in ast.walk(fnode) if isinstance(n, ast.Name) and n.id == u and isinstance(n.ctx, (ast.Store, ast.Del)))
         if total_defs != len(plans):
             continue
-        for block, D, E, uses in plans:
+        for block, D, E, uses, plan_ok in plans:
+            if not plan_ok:
+                continue
             for x in uses:
                 ne = clone(E)
                 for n in ast.walk(ne):
@@ -1523,6 +1815,20 @@ def compute_tuple_sizes(trees):
 
 
 def _normalize_locals(fnode, known_locals, self_name, cnt, ref_defs=None):
+    INT_NAMES.clear()
+    for n in ast.walk(fnode):
+        if isinstance(n, ast.For) and isinstance(n.iter, ast.Call) and isinstance(n.iter.func, ast.Name):
+            if n.iter.func.id == "range" and isinstance(n.target, ast.Name):
+                INT_NAMES.add(n.target.id)
+            if n.iter.func.id == "enumerate" and isinstance(n.target, ast.Tuple) and n.target.elts and isinstance(n.target.elts[0], ast.Name):
+                INT_NAMES.add(n.target.elts[0].id)
+    # a counter that is also assigned elsewhere is not known to be an integer
+    for n in ast.walk(fnode):
+        if isinstance(n, (ast.Assign, ast.AugAssign)):
+            for t_ in (n.targets if isinstance(n, ast.Assign) else [n.target]):
+                for x in ast.walk(t_):
+                    if isinstance(x, ast.Name) and isinstance(x.ctx, ast.Store):
+                        INT_NAMES.discard(x.id)
     pre_unknown = {n.id for n in ast.walk(fnode) if isinstance(n, ast.Name) and isinstance(n.ctx, ast.Store)} - set(known_locals)
     for _ in range(6):
         if not (pre_unknown and _unpack_subscripted(fnode, pre_unknown, TUPLE_SIZES, cnt)):
@@ -1799,6 +2105,30 @@ def normalize_module(tree, modname):
             g = node.targets[0].id
             if g not in v["globals"] and counts.get(g) == 1 and _literalish(node.value) and not g.startswith("__"):
                 unknown_glob[g] = node.value
+    # a mutable literal (dict / list / set) that the module changes or hands out is
+    # state, not a constant
+    def mutated(gname):
+        for n in ast.walk(tree):
+            if isinstance(n, (ast.Subscript, ast.Attribute)) and isinstance(n.ctx, (ast.Store, ast.Del)):
+                r = n
+                while isinstance(r, (ast.Subscript, ast.Attribute)):
+                    r = r.value
+                if isinstance(r, ast.Name) and r.id == gname:
+                    return True
+            if isinstance(n, ast.Call):
+                if isinstance(n.func, ast.Attribute) and n.func.attr in MUTATORS | {"setdefault"} and isinstance(n.func.value, ast.Name) and n.func.value.id == gname:
+                    return True
+                for a in list(n.args) + [k.value for k in n.keywords]:
+                    if isinstance(a, ast.Name) and a.id == gname and not (isinstance(n.func, ast.Name) and n.func.id in PURE_FUNCS):
+                        return True
+            if isinstance(n, ast.Global) and gname in n.names:
+                return True
+            if isinstance(n, ast.Return) and isinstance(n.value, ast.Name) and n.value.id == gname:
+                return True
+        return False
+    for g in list(unknown_glob):
+        if _has(unknown_glob[g], (ast.Dict, ast.List, ast.Set)) and mutated(g):
+            del unknown_glob[g]
     # unknown globals may refer to one another; tuple(<genexp over a literal
     # table>) is evaluated statically
     pending = {}
